@@ -135,6 +135,24 @@ UnescLoose(x) ==
             THEN <<CharOfCode(65536 + (n - 55296) * 1024 + (Hex4Val(x, 9) - 56320))>> \o UnescLoose(Drop(x, 12))
             ELSE <<CharOfCode(n)>> \o UnescLoose(Drop(x, 6))
 
+(* Strings whose VALUE is a backslash, u and hexadecimal digits (in a JSON text they are written with an
+   escaped backslash: "\\ud83d").  They are ordinary six-character strings: nothing may treat them as the
+   escape sequences they look like -- in particular not fn:xml-to-json on strings that are not marked
+   escaped.  Lone high / low surrogate codes, a reversed pair, a well-formed looking pair, a high code
+   followed by a BMP code, an ordinary BMP code, a truncated form and one with non-hexadecimal digits. *)
+Hx(v) == HexUpper(v)
+BsU(d) == <<CB, CU>> \o d
+VHiL   == BsU(<<HexLower(13), Hx(8), Hx(3), HexLower(13)>>)      \* \ud83d
+VHi    == BsU(<<Hx(13), Hx(8), Hx(3), Hx(13)>>)                  \* \uD83D
+VLo    == BsU(<<Hx(13), Hx(14), Hx(0), Hx(0)>>)                  \* \uDE00
+VBmp   == BsU(<<Hx(0), Hx(0), Hx(4), Hx(1)>>)                    \* \u0041
+VRev   == VLo \o VHi
+VPair  == VHi \o VLo
+VHiBmp == BsU(<<Hx(13), Hx(11), Hx(15), Hx(15)>>) \o VBmp       \* \uDBFF\u0041
+VTrunc == BsU(<<Hx(1), Hx(2)>>)                                  \* \u12
+VNoHex == BsU(<<CN, CN, CN, CN>>)                                \* \unnnn
+BackslashUValues == {VHiL, VHi, VLo, VBmp, VRev, VPair, VHiBmp, VTrunc, VNoHex}
+
 (* all strings over an alphabet up to a length *)
 RECURSIVE StrsOfLen(_, _)
 StrsOfLen(A, k) == IF k = 0 THEN {<<>>} ELSE {<<c>> \o s : c \in A, s \in StrsOfLen(A, k - 1)}
